@@ -288,6 +288,73 @@ example : Quiescent (run {} [.arrive 1, .arrive 2, .thread 0, .thread 1, .thread
       .thread 0, .thread 1, .thread 1, .thread 1, .respond, .flush, .thread 2, .thread 3]).delivered = [1, 2] := by
   decide
 
+/-! ### sending side: which instances a send operation addresses -/
+namespace Send
+
+/-- **same run**: every envelope a send operation produces carries the sender's run (roster,
+tree, protocol, service, round) and is sent to the server hosting the node its token names. -/
+theorem c01_send_same_run_right_server (t : Tree) (host : Nat → Nat) (run me : Nat) (p : Pattern) :
+    ∀ e ∈ envelopes t host run me p, e.2.run = run ∧ e.1 = host e.2.node := by
+  intro e he
+  simp only [envelopes, List.mem_map] at he
+  obtain ⟨j, _, rfl⟩ := he
+  exact ⟨rfl, rfl⟩
+
+/-- **to children**: exactly the nodes whose parent is the sender, each once. -/
+theorem c01_send_children_exact (t : Tree) (me j : Nat) :
+    (j ∈ dests t me .children ↔ j < t.n ∧ t.parentOf j = some me) ∧ (dests t me .children).Nodup := by
+  constructor
+  · simp [dests, Tree.children]
+  · exact (List.nodup_range).filter _
+
+/-- **to parent**: the parent and nobody else; the root sends nothing. -/
+theorem c01_send_parent_exact (t : Tree) (me : Nat) :
+    dests t me .parent = (match t.parentOf me with | none => [] | some p => [p]) := rfl
+
+/-- **broadcast**: every node of the tree except the sender, each exactly once. -/
+theorem c01_send_bcast_exact (t : Tree) (me j : Nat) :
+    (j ∈ dests t me .bcast ↔ j < t.n ∧ j ≠ me) ∧ (dests t me .bcast).Nodup := by
+  constructor
+  · simp [dests]
+  · exact (List.nodup_range).filter _
+
+theorem filter_ne_length (l : List Nat) (me : Nat) (hn : l.Nodup) (hm : me ∈ l) :
+    (l.filter (fun j => j != me)).length + 1 = l.length := by
+  induction l with
+  | nil => simp at hm
+  | cons x xs ih =>
+    simp only [List.nodup_cons] at hn
+    by_cases hx : x = me
+    · subst hx
+      have : xs.filter (fun j => j != x) = xs := by
+        apply List.filter_eq_self.mpr
+        intro a ha; simp; intro e; subst e; exact hn.1 ha
+      simp [this]
+    · have hm' : me ∈ xs := by
+        simp at hm
+        rcases hm with e | h
+        · exact absurd e.symm hx
+        · exact h
+      have := ih hn.2 hm'
+      simp [hx]; omega
+
+theorem c01_send_bcast_count (t : Tree) (me : Nat) (h : me < t.n) :
+    (dests t me .bcast).length + 1 = t.n := by
+  have := filter_ne_length (List.range t.n) me List.nodup_range (List.mem_range.mpr h)
+  simpa [dests] using this
+
+/-- a plain `SendTo` and a `Multicast` address exactly the nodes they were given -/
+theorem c01_send_to_exact (t : Tree) (me j : Nat) (js : List Nat) :
+    dests t me (.to j) = [j] ∧ dests t me (.multi js) = js := ⟨rfl, rfl⟩
+
+/-- non-vacuity: root 0 with children 1, 2; node 1 with children 3, 4 -/
+example : dests ⟨[none, some 0, some 0, some 1, some 1]⟩ 1 .children = [3, 4] ∧
+    dests ⟨[none, some 0, some 0, some 1, some 1]⟩ 1 .parent = [0] ∧
+    dests ⟨[none, some 0, some 0, some 1, some 1]⟩ 1 .bcast = [0, 2, 3, 4] ∧
+    dests ⟨[none, some 0, some 0, some 1, some 1]⟩ 0 .parent = [] := by decide
+
+end Send
+
 /-! ### the code regions the model stands for
 Regenerated from /repo's source on every run (`harness/cmd/astfacts` → `OnetVerif/Shapes.lean`): the
 calls that matter for synchronisation and data flow, the lock regions and (for decision logic) the
